@@ -233,8 +233,8 @@ func Run(ctx *core.Ctx) {
 	}()
 
 	const nworkers = 6
-	ngroups := ctx.Pick(500, 9000)
-	nfields := ctx.Pick(150, 1500)
+	ngroups := ctx.Pick(500, 17000)
+	nfields := ctx.Pick(150, 4000)
 	type job struct {
 		kind string
 		idx  int
